@@ -60,7 +60,8 @@ prop('C01', True, "Lean transition system of the distributed execution protocol 
      "code twice: worker_scans_all (kernel, every extracted path of execution_loop) and evaluation of scanRun by the driver on every validated real history." + TIE,
      EXEC_NOTE, "Lean 4 proof (invariants by induction over histories) + kernel-checked extracted worker-loop paths + trace validation of gated real runs")
 prop('C02', True, "Theorems: mutex_run/mutex_cs (no two workers inside the same task in any reachable state), no_rerun_once_stored, result_stable, publish_before_release, at_most_once/stored_never_started/"
-     "exactly_once_if_stored (ghost run counter) for unboundedly many workers and arbitrary histories." + TIE + " Targeted schedules: stall a worker between check and lock for every task; late joiners; early quitters.",
+     "exactly_once_if_stored (ghost run counter) for unboundedly many workers and arbitrary histories; at_most_once_general: along ANY history (failing tasks, stops, kills, lock clean-up) a task function is started "
+     "again only after an attempt was interrupted: runs t <= 1 + interruptions of t (tight by example)." + TIE + " Targeted schedules: stall a worker between check and lock for every task; late joiners; early quitters.",
      EXEC_NOTE, "Lean 4 proof (invariants, ghost counter) + kernel-checked extracted worker-loop paths + trace validation")
 prop('C03', True, "Theorems: run_after_deps, blocked_while_dep_missing, args_are_stored_results, result_is_function_of_stored over the dependency relation 'results the task really reads'." + TIE +
      " Ground truth of dependencies is measured independently of Task.dependencies() (loads of a cache-free sequential run) for every embedding kind and compared with what the code reports; edge tests hold a worker inside a dependency while others run.",
